@@ -8,6 +8,7 @@ pub mod c05;
 pub mod c06;
 pub mod c07;
 pub mod c08;
+pub mod c08t;
 pub mod c09;
 pub mod common;
 pub mod xfer;
@@ -31,6 +32,7 @@ pub fn dispatch(args: &Args) -> Report {
         "C03R" | "C10R" | "C15R" => c06::run_reuse(args),
         "C07" => c07::run(args),
         "C08" => c08::run(args),
+        "C08T" => c08t::run(args),
         "C09" => c09::run(args),
         "C10" => c10::run(args),
         "C11" => c11::run(args),
